@@ -25,6 +25,18 @@ type RateLimiter invariant base: self.tokens >= 0 && self.cycle >= 0 && self.sta
 type RateLimiter invariant perCycle: self.state != StateDisabled ==> (forall c int :: self.rel[c] <= L(self))
 type RateLimiter invariant future: self.state != StateDisabled ==> (forall c int :: c >= self.cycle ==> self.rel[c] == clamp(self.tokens - (c - self.cycle) * L(self), 0, L(self)))
 
+func NewMulti(policy *MultiPolicy) (rl *MultiRateLimiter)
+  flag allocates
+  requires usable-policy: policy != nil && policy.LimitRefreshPeriod > 0
+  modifies clock
+  ensures rl != nil && fresh(rl) && rl.policy == policy
+
+func New(policy *Policy) (rl *RateLimiter)
+  flag allocates
+  requires usable-policy: policy != nil && policy.LimitRefreshPeriod > 0 && policy.LimitForPeriod >= 1
+  modifies clock
+  ensures rl != nil && fresh(rl) && rl.policy == policy && rl.tokens == 0 && rl.cycle == 0 && rl.state == StateNormal && rl.startTime == clock
+
 func (rl *RateLimiter) acquirePermission(count int) (ok bool, wait time.Duration)
   requires rl != nil && rl.policy != nil
   requires L(rl) >= 1 && P(rl) > 0 && T(rl) >= 0
